@@ -2,6 +2,7 @@ package main
 
 import (
 	"flag"
+	"go/types"
 	"fmt"
 	"os"
 	"path/filepath"
@@ -13,6 +14,9 @@ import (
 	"golang.org/x/tools/go/ssa"
 	"golang.org/x/tools/go/ssa/ssautil"
 )
+
+// importAliases: package path -> import alias -> imported package path (file-level renames)
+var importAliases = map[string]map[string]string{}
 
 type Loaded struct {
 	prog  *ssa.Program
@@ -39,6 +43,21 @@ func loadRepo(repo string, patterns []string) (*Loaded, error) {
 	if len(errs) > 0 {
 		return nil, fmt.Errorf("package errors: %s", strings.Join(errs, "; "))
 	}
+	packages.Visit(pkgs, nil, func(p *packages.Package) {
+		if !strings.HasPrefix(p.PkgPath, strings.TrimSuffix(modulePath, "/")) {
+			return
+		}
+		for _, f := range p.Syntax {
+			for _, im := range f.Imports {
+				if im.Name != nil && im.Name.Name != "_" && im.Name.Name != "." {
+					if importAliases[p.PkgPath] == nil {
+						importAliases[p.PkgPath] = map[string]string{}
+					}
+					importAliases[p.PkgPath][im.Name.Name] = strings.Trim(im.Path.Value, "\"")
+				}
+			}
+		}
+	})
 	prog, spkgs := ssautil.AllPackages(pkgs, ssa.GlobalDebug|ssa.InstantiateGenerics)
 	// build bodies only for the repository's packages (externals are never inlined)
 	for _, p := range prog.AllPackages() {
@@ -47,9 +66,38 @@ func loadRepo(repo string, patterns []string) (*Loaded, error) {
 		}
 	}
 	l := &Loaded{prog: prog, pkgs: spkgs, funcs: map[string]*ssa.Function{}}
-	for fn := range ssautil.AllFunctions(prog) {
-		if inRepo(fn) {
-			l.funcs[contractKeyOf(fn)] = fn
+	var add func(fn *ssa.Function)
+	add = func(fn *ssa.Function) {
+		if fn == nil {
+			return
+		}
+		k := contractKeyOf(fn)
+		if _, ok := l.funcs[k]; ok {
+			return
+		}
+		l.funcs[k] = fn
+		for _, a := range fn.AnonFuncs {
+			add(a)
+		}
+	}
+	for _, p := range prog.AllPackages() {
+		if !strings.HasPrefix(p.Pkg.Path(), strings.TrimSuffix(modulePath, "/")) {
+			continue
+		}
+		for _, m := range p.Members {
+			switch m := m.(type) {
+			case *ssa.Function:
+				add(m)
+			case *ssa.Type:
+				for _, t := range []types.Type{m.Type(), types.NewPointer(m.Type())} {
+					ms := prog.MethodSets.MethodSet(t)
+					for i := 0; i < ms.Len(); i++ {
+						if fn := prog.MethodValue(ms.At(i)); fn != nil && fn.Synthetic == "" {
+							add(fn)
+						}
+					}
+				}
+			}
 		}
 	}
 	l.loadS = time.Since(t0).Seconds()
